@@ -17,9 +17,13 @@ pub enum Lay {
     Perm,
     /// a C-order window inside a larger allocation (one cell margin on every side)
     Window,
+    /// every axis but the first reversed: lanes (axis 0 removed) are contiguous in memory, but not in logical order
+    RevTrail,
+    /// the trailing axes stored in reversed order (axis 0 in place): lanes are contiguous, column-major
+    PermTrail,
 }
 
-pub const ALL_LAYS: [Lay; 6] = [Lay::C, Lay::F, Lay::Strided, Lay::Rev, Lay::Perm, Lay::Window];
+pub const ALL_LAYS: [Lay; 8] = [Lay::C, Lay::F, Lay::Strided, Lay::Rev, Lay::Perm, Lay::Window, Lay::RevTrail, Lay::PermTrail];
 
 impl Lay {
     pub fn name(self) -> &'static str {
@@ -30,6 +34,8 @@ impl Lay {
             Lay::Rev => "Rev",
             Lay::Perm => "Perm",
             Lay::Window => "Window",
+            Lay::RevTrail => "RevTrail",
+            Lay::PermTrail => "PermTrail",
         }
     }
 }
@@ -37,6 +43,16 @@ impl Lay {
 /// margins / strides are applied to the first and the last axis only (keeps allocations small)
 fn edge(ax: usize, rank: usize) -> bool {
     ax == 0 || ax + 1 == rank
+}
+
+/// axis permutation of PermTrail: axis 0 stays, the trailing axes are reversed
+fn perm_trail(rank: usize) -> Vec<usize> {
+    if rank == 0 {
+        return vec![];
+    }
+    let mut p = vec![0usize];
+    p.extend((1..rank).rev());
+    p
 }
 
 /// A backing allocation plus the recipe to obtain the logical array as a view of it
@@ -51,7 +67,8 @@ impl<T: El> Realized<T> {
     pub fn new(logical: &ArrayD<T>, lay: Lay) -> Self {
         let shape = logical.shape().to_vec();
         let bshape: Vec<usize> = match lay {
-            Lay::C | Lay::F | Lay::Rev => shape.clone(),
+            Lay::C | Lay::F | Lay::Rev | Lay::RevTrail => shape.clone(),
+            Lay::PermTrail => perm_trail(shape.len()).iter().map(|&a| shape[a]).collect(),
             Lay::Strided => shape.iter().enumerate().map(|(i, &n)| if edge(i, shape.len()) { 2 * n + 1 } else { n }).collect(),
             Lay::Perm => shape.iter().rev().copied().collect(),
             Lay::Window => shape.iter().enumerate().map(|(i, &n)| if edge(i, shape.len()) { n + 2 } else { n }).collect(),
@@ -80,7 +97,12 @@ impl<T: El> Realized<T> {
                 v.slice_each_axis_move_compat(|ax, _| if edge(ax, r) { Slice::new(1, Some(1 + 2 * shape[ax] as isize), 2) } else { Slice::new(0, None, 1) })
             }
             Lay::Rev => v.slice_each_axis_move_compat(|_, _| Slice::new(0, None, -1)),
+            Lay::RevTrail => v.slice_each_axis_move_compat(|ax, _| Slice::new(0, None, if ax == 0 { 1 } else { -1 })),
             Lay::Perm => v.reversed_axes(),
+            Lay::PermTrail => {
+                let p = perm_trail(self.shape.len());
+                if p.is_empty() { v } else { v.permuted_axes(IxDyn(&p)) }
+            }
             Lay::Window => {
                 let shape = self.shape.clone();
                 let r = shape.len();
@@ -109,7 +131,17 @@ impl<T: El> Realized<T> {
                 }
                 v
             }
+            Lay::RevTrail => {
+                for ax in 1..shape.len() {
+                    v.slice_axis_inplace(ndarray::Axis(ax), Slice::new(0, None, -1));
+                }
+                v
+            }
             Lay::Perm => v.reversed_axes(),
+            Lay::PermTrail => {
+                let p = perm_trail(shape.len());
+                if p.is_empty() { v } else { v.permuted_axes(IxDyn(&p)) }
+            }
             Lay::Window => {
                 for (ax, &n) in shape.iter().enumerate() {
                     if edge(ax, shape.len()) {
@@ -121,11 +153,16 @@ impl<T: El> Realized<T> {
         }
     }
 
-    /// an *owned* array with this layout (only C, F and Perm can be owned)
+    /// an *owned* array with this layout (C, F, Perm, PermTrail; to_owned() keeps the strides of the reversed
+    /// layouts because they are contiguous in memory; Strided and Window become standard layout)
     pub fn into_owned_layout(self) -> ArrayD<T> {
         match self.lay {
             Lay::C | Lay::F => self.backing,
             Lay::Perm => self.backing.reversed_axes(),
+            Lay::PermTrail => {
+                let p = perm_trail(self.shape.len());
+                if p.is_empty() { self.backing } else { self.backing.permuted_axes(IxDyn(&p)) }
+            }
             _ => self.view().to_owned(),
         }
     }
